@@ -229,11 +229,28 @@ def check(ctx):
             reqs.append(dict(op='C10.inside', bounds=[list(b) for b in bounds], x=out.tolist()))
             meta.append(('inside', dict(case, x=out.tolist()), False))
             # shapes: a (1, d) row on the fast path; several rows / a scalar on the library path (the fast path is single-point)
-            inner = np.array([0.5 * (lo + hi) + 0.1 for lo, hi in bounds])
+            inner = np.array([lo + 0.6 * (hi - lo) for lo, hi in bounds])
             one_row = np.asarray(post._unnormalized_loglikelihood(inner[None, :])) + post.prior.logpdf(inner)
             flat = np.asarray(post._unnormalized_loglikelihood(inner)) + float(post.prior.logpdf(inner)[0])
             if one_row.shape != (1,) or flat.shape != (() if d > 1 else (1,)) or not math.isclose(float(one_row[0]), float(np.ravel(flat)[0]), rel_tol=1e-12):
                 ctx.fail_input(dict(case, x=inner.tolist()), 'a (1, d) shaped and a flat query of the same point give %s and %s' % (one_row.tolist(), flat.tolist()))
+                bad = True
+                break
+            # several query points in ONE call, inside and outside mixed (on a copy of the surrogate, so that this phase of the real
+            # one stays without a library-path call): every row is what the single-point call gives
+            gp2 = gp.copy()
+            gp2.is_sampling = False
+            post2 = BolfiPosterior(gp2, threshold=thr, prior=BoxPrior(bounds))
+            inner2 = np.array([lo + 0.3 * (hi - lo) for lo, hi in bounds])
+            pts2 = np.array([inner, out, inner2, corner])
+            gm2 = np.asarray(post2.gradient_logpdf(pts2))
+            lm2 = np.asarray(post2.logpdf(pts2))
+            g_each = np.array([np.ravel(post2.gradient_logpdf(p_)) for p_ in pts2])
+            l_each = np.array([float(np.ravel(post2.logpdf(p_))[0]) for p_ in pts2])
+            ctx.count('query', 'mixed-batch')
+            if gm2.shape != (4, d) or not np.allclose(gm2, g_each, rtol=1e-5, atol=1e-9) or not np.allclose(lm2, l_each, rtol=1e-7, equal_nan=False):
+                ctx.fail_input(dict(case, at=ph, x=pts2.tolist()), 'a query of several points (inside and outside the bounds mixed) gives gradients %s / log densities %s, '
+                               'the points one by one give %s / %s' % (gm2.tolist(), lm2.tolist(), g_each.tolist(), l_each.tolist()))
                 bad = True
                 break
             if rng.random() < .6 or it < 3:            # leave most sampling phases WITHOUT a library-path call afterwards
